@@ -31,6 +31,12 @@ type TupleV struct {
 	Vs []Val
 }
 
+// SeqV is a spec-only sequence (quantified slice of scalars): content array and length.
+type SeqV struct {
+	A   *Term
+	Len *Term
+}
+
 // ArrV is a Go array value [N]T with scalar elements.
 type ArrV struct {
 	A *Term // (Array Int S)
@@ -302,6 +308,7 @@ type State struct {
 	taint   string
 	from    *ssa.BasicBlock // block the state comes from (for phi resolution)
 	phis    map[*ssa.Phi]Val
+	xregs   map[ssa.Value]Val // registers defined inside a loop that are live after it
 	dead    bool
 	held    map[string]*Term // ghost: lock held-set (key: lock identity string) -> Bool term
 }
@@ -317,6 +324,12 @@ func (st *State) clone() *State {
 		n.heap[k] = v
 	}
 	n.defers = append([]deferEntry{}, st.defers...)
+	if st.xregs != nil {
+		n.xregs = make(map[ssa.Value]Val, len(st.xregs))
+		for k, v := range st.xregs {
+			n.xregs[k] = v
+		}
+	}
 	if st.held != nil {
 		n.held = make(map[string]*Term, len(st.held))
 		for k, v := range st.held {
@@ -452,8 +465,8 @@ func rangeFacts(v *Term, t types.Type) []*Term {
 var strLits = map[string]*Term{}
 var strLitOrder []string
 
-func StrLen(s *Term) *Term   { return App("str.len", IntSort, s) }
-func StrBytes(s *Term) *Term { return App("str.bytes", ArraySort(IntSort, BVSort(8)), s) }
+func StrLen(s *Term) *Term   { return App("gstr.len", IntSort, s) }
+func StrBytes(s *Term) *Term { return App("gstr.bytes", ArraySort(IntSort, BVSort(8)), s) }
 func StrAt(s, i *Term) *Term { return Select(StrBytes(s), i) }
 
 func StrLit(s string) *Term {
